@@ -5,3 +5,4 @@ import HidiProofs.Props.C04
 import HidiProofs.Props.C05
 import HidiProofs.Props.C13
 import HidiProofs.Props.C14
+import HidiProofs.Props.C11
